@@ -147,6 +147,28 @@ PROPS['C14'].update({
     'assumptions': ASSUME_COMMON + ASSUME_ND + ASSUME_BC,
 })
 
+PROPS['C02'].update({
+    'level': 'other',
+    'units': ['pwl_schema'],
+    'technique': 'Verus contracts on the node-level composition schemas (update_decision / update_terminal, AffFunc::compose) against the real-arithmetic ndarray shim + bounded replay (bc compose) of the grafting loop generic_composition_inplace',
+    'level_text': ('Mixed. PROVED modulo "f64 = reals" (Verus, all shapes, all x): FunctionComposition(+Infeasible)::update_decision yields a predicate whose every row holds at x exactly when '
+                   'the original row holds at context(x) (A(Mx+c) <= b <=> (AM)x <= b - Ac); update_terminal is original after context; AffFunc::compose(f,g)(x) == f(g(x)). '
+                   'BOUNDED (bc compose, K in {2,4}): the tree-level law h(x) == g(f(x)) incl. undefinedness through generic_composition_inplace, apply_func, right operand unchanged, node indices of f kept. '
+                   'The grafting loop itself (two nested loops over an explicit stack with interleaved deletions) is not under contract.'),
+    'design_ref': 'DESIGN.md §4 C02',
+    'assumptions': ASSUME_COMMON + ASSUME_ND + ASSUME_BC + ['rule T1: methods of `impl CompositionSchema for X` are verified as free functions; clone() is the verified body of impl Clone (clone_aff)'],
+})
+PROPS['C07'].update({
+    'level': 'other',
+    'units': ['pwl_schema', 'aff_algebra'],
+    'technique': 'Verus contracts on the arithmetic schemas (impl_op_schema! expanded) and the AffFunc operators + bounded replay (bc ops) of the lifted operators on trees',
+    'level_text': ('Mixed. PROVED modulo "f64 = reals" (Verus): for Add/Sub/Mul/Div the schema keeps decisions unchanged and builds the terminal as context op original, coefficient-wise and in '
+                   'that operand order; the AffFunc operators are coefficient-wise in the borrowed and the owned variant (and + / - / unary minus point-wise). '
+                   'BOUNDED (bc ops): the lifted law on trees for all four operators, every ownership variant, negation and the tree/affine mixed forms through generic_composition_inplace and unary_op_*.'),
+    'design_ref': 'DESIGN.md §4 C07',
+    'assumptions': ASSUME_COMMON + ASSUME_ND + ASSUME_BC + ['rule T1 as for C02'],
+})
+
 NOT_APPLICABLE = {
     'C10': 'correctness of the external LP solver (minilp simplex) seen through a 20-line adapter: no contract within reach can decide it; a contract on solve_linprog would have to be assumed',
     'C19': 'fmt::Formatter / string output: Verus has no model of core::fmt output or str contents; deciding it means parsing output back, which is testing, not contract verification',
